@@ -713,3 +713,95 @@ pub fn machinery_exit(msg: &str) -> ! {
     eprintln!("MACHINERY-FAILURE {msg}");
     std::process::exit(2);
 }
+
+// ------------------------------------------------------------------------------------------
+// supervised runs: turning a process abort of the code under test into a violation
+//
+// A stack overflow (unbounded recursion) or an abort inside the code under test kills the whole
+// process and cannot be caught in-process. A check whose property includes termination calls
+// `supervise(id)` first thing in `main`: the check then runs in a child process; workers note the
+// case they are about to execute with `mark_case`; if the child is killed by a signal the parent
+// reports `VIOLATION ... key=crash:process-aborted:signal-<n>` with the marked cases as replay.
+
+static MARK_DIR: std::sync::OnceLock<Option<PathBuf>> = std::sync::OnceLock::new();
+
+fn mark_dir() -> &'static Option<PathBuf> {
+    MARK_DIR.get_or_init(|| std::env::var("VERIF_SUPERVISED").ok().map(PathBuf::from))
+}
+
+/// Note the case worker `worker` is about to run (no-op unless the process is supervised).
+pub fn mark_case(worker: usize, desc: impl FnOnce() -> String) {
+    if let Some(dir) = mark_dir() {
+        let _ = std::fs::write(dir.join(format!("w{worker}")), desc());
+    }
+}
+
+/// Re-execute the current check in a supervised child process (see above). Returns in the child;
+/// never returns in the parent.
+pub fn supervise(id: &'static str) {
+    if std::env::var("VERIF_SUPERVISED").is_ok() {
+        return;
+    }
+    let base = if Path::new("/dev/shm").is_dir() { PathBuf::from("/dev/shm") } else { std::env::temp_dir() };
+    let dir = base.join(format!("verif-{}-{}", id, std::process::id()));
+    let _ = std::fs::remove_dir_all(&dir);
+    if std::fs::create_dir_all(&dir).is_err() {
+        machinery_exit("cannot create the supervision directory");
+    }
+    let exe = std::env::current_exe().unwrap_or_else(|_| machinery_exit("current_exe"));
+    let status = std::process::Command::new(exe)
+        .args(std::env::args().skip(1))
+        .env("VERIF_SUPERVISED", &dir)
+        .status();
+    let status = match status {
+        Ok(s) => s,
+        Err(e) => {
+            let _ = std::fs::remove_dir_all(&dir);
+            machinery_exit(&format!("cannot spawn the supervised child: {e}"))
+        }
+    };
+    if let Some(code) = status.code() {
+        let _ = std::fs::remove_dir_all(&dir);
+        std::process::exit(code);
+    }
+    // killed by a signal: collect what the workers were running
+    #[cfg(unix)]
+    let sig = {
+        use std::os::unix::process::ExitStatusExt;
+        status.signal().unwrap_or(0)
+    };
+    #[cfg(not(unix))]
+    let sig = 0;
+    let mut cases: Vec<Value> = vec![];
+    if let Ok(rd) = std::fs::read_dir(&dir) {
+        let mut names: Vec<PathBuf> = rd.filter_map(|e| e.ok().map(|e| e.path())).collect();
+        names.sort();
+        for p in names {
+            if let Ok(txt) = std::fs::read_to_string(&p) {
+                cases.push(serde_json::from_str(&txt).unwrap_or(Value::String(txt)));
+            }
+        }
+    }
+    let _ = std::fs::remove_dir_all(&dir);
+    let root = verif_root();
+    let rdir = root.join("replays");
+    let _ = std::fs::create_dir_all(&rdir);
+    let key = format!("crash:process-aborted:signal-{sig}");
+    let body = json!({
+        "property": id,
+        "key": key,
+        "what": "the check process was killed by a signal (stack overflow / abort in the code under test) while running one of these cases",
+        "case": {"crashed_cases": cases},
+        "replay_cmd": format!("./check {id} --replay <this file>"),
+    });
+    let txt = serde_json::to_string_pretty(&body).unwrap();
+    let p = rdir.join(format!("{}-{:016x}.json", id, fnv64(txt.as_bytes())));
+    let _ = std::fs::write(&p, txt);
+    println!(
+        "VIOLATION property={} replay={} key={} -- the code under test killed the process (stack overflow or abort): no termination",
+        id,
+        p.display(),
+        key
+    );
+    std::process::exit(1);
+}
